@@ -15,6 +15,7 @@ def opsDash (op : String) : Option (Rd String) :=
   | "seg.inv_arclen" => some do
       let s : PathSeg K ← seg; let len : K ← num; let acc : K ← num
       return e (s.inv_arclen len acc)
+  | "cubic.arclen_work" => some do let c : CubicBez K ← cubic; let acc : K ← num; return s!"{e (c.arclen acc)} {c.arclenCalls acc}"
   | "path.perimeter" => some do
       let acc : K ← num; let p : List (PathEl K) ← els
       match pathPerimeter p acc with
